@@ -215,6 +215,8 @@ class Ctx:
                 self.transitions += res['generated']
                 for v in o.get('fails', []):
                     verdicts[v['tid']] = v
+                if o.get('drift'):
+                    self.extra['binding_drift_events'] = self.extra.get('binding_drift_events', 0) + int(o['drift'])
                 if o.get('uncert'):
                     self.extra.setdefault('lasso_uncertified_tids', []).extend(o['uncert'])
         shutil.rmtree(d, ignore_errors=True)
